@@ -1,7 +1,7 @@
 SPECIFICATION Spec
 CONSTANTS
-  Base = "plain"
-  MaxOps = 3
+  Base = "plainurl"
+  MaxOps = 0
   OpKinds = {"free", "unk", "swap", "large", "spare", "opt"}
 INVARIANTS LayoutInvariant Emit
 CHECK_DEADLOCK FALSE
